@@ -1,0 +1,70 @@
+//go:build verif
+
+package cmap
+
+// Contracts for the deductive verifier in /verif (govc). Comments only; compiled solely with -tags verif.
+
+// ---------------------------------------------------------------------------------------------
+// The awaitable map (C15). Each shard method is verified as sequential code against an atomic
+// specification over the abstract view of the shard; all accesses to s.m lie inside critical sections of
+// s.l, so (trusted meta-theorem) each method takes effect atomically.
+//
+//   present(k)  = k is in s.m with no wait channel   (the key has a value)
+//   awaited(k)  = k is in s.m with a wait channel     (a placeholder: callers are waiting for k)
+//
+// Lock invariant: the wait channel of every placeholder exists and is open (li_open), and two placeholders
+// never share a channel (li_distinct) — so closing the channel of one key cannot wake waiters of another.
+//
+//@ func (shard).Set
+//@   requires s != nil
+//@   requires li_open: forall k K :: in(k, s.m) && s.m[k].Wait != nil ==> !isclosed(s.m[k].Wait) && allocated(s.m[k].Wait)
+//@   requires li_distinct: forall k1 K, k2 K :: in(k1, s.m) && in(k2, s.m) && s.m[k1].Wait != nil && k1 != k2 ==> s.m[k1].Wait != s.m[k2].Wait
+//@   ensures inserted [C15]: result == (!(old(in(key, s.m)) && old(s.m[key].Wait) == nil) || overwrite)
+//@   ensures stored [C15]: result ==> in(key, s.m) && s.m[key].Wait == nil && s.m[key].Val == val
+//@   ensures kept [C15]: !result ==> in(key, s.m) && s.m[key] == old(s.m[key])
+//@   ensures others [C15]: forall k K :: k != key ==> in(k, s.m) == old(in(k, s.m)) && s.m[k] == old(s.m[k])
+//@   ensures wakes_own_waiters [C15]: old(in(key, s.m)) && old(s.m[key].Wait) != nil ==> isclosed(old(s.m[key].Wait))
+//@   ensures wakes_no_others [C15]: forall c chan struct{} :: isclosed(c) == (old(isclosed(c)) || \
+//@      (old(in(key, s.m)) && old(s.m[key].Wait) != nil && c == old(s.m[key].Wait)))
+//@   ensures li_open [C15]: forall k K :: in(k, s.m) && s.m[k].Wait != nil ==> !isclosed(s.m[k].Wait) && allocated(s.m[k].Wait)
+//@   ensures li_distinct [C15]: forall k1 K, k2 K :: in(k1, s.m) && in(k2, s.m) && s.m[k1].Wait != nil && k1 != k2 ==> s.m[k1].Wait != s.m[k2].Wait
+//
+//@ func (shard).LazySet
+//@   requires s != nil
+//@   requires li_open: forall k K :: in(k, s.m) && s.m[k].Wait != nil ==> !isclosed(s.m[k].Wait) && allocated(s.m[k].Wait)
+//@   requires li_distinct: forall k1 K, k2 K :: in(k1, s.m) && in(k2, s.m) && s.m[k1].Wait != nil && k1 != k2 ==> s.m[k1].Wait != s.m[k2].Wait
+//@   opt callbacks=pure
+//@   ensures inserted [C15]: result1 == !(old(in(key, s.m)) && old(s.m[key].Wait) == nil)
+//@   ensures stored [C15]: in(key, s.m) && s.m[key].Wait == nil && s.m[key].Val == result0
+//@   ensures kept [C15]: !result1 ==> s.m[key] == old(s.m[key])
+//@   ensures others [C15]: forall k K :: k != key ==> in(k, s.m) == old(in(k, s.m)) && s.m[k] == old(s.m[k])
+//@   ensures wakes_own_waiters [C15]: old(in(key, s.m)) && old(s.m[key].Wait) != nil ==> isclosed(old(s.m[key].Wait))
+//@   ensures wakes_no_others [C15]: forall c chan struct{} :: isclosed(c) == (old(isclosed(c)) || \
+//@      (old(in(key, s.m)) && old(s.m[key].Wait) != nil && c == old(s.m[key].Wait)))
+//@   ensures li_open [C15]: forall k K :: in(k, s.m) && s.m[k].Wait != nil ==> !isclosed(s.m[k].Wait) && allocated(s.m[k].Wait)
+//@   ensures li_distinct [C15]: forall k1 K, k2 K :: in(k1, s.m) && in(k2, s.m) && s.m[k1].Wait != nil && k1 != k2 ==> s.m[k1].Wait != s.m[k2].Wait
+//
+//@ func (shard).Get
+//@   requires s != nil
+//@   requires li_open: forall k K :: in(k, s.m) && s.m[k].Wait != nil ==> !isclosed(s.m[k].Wait) && allocated(s.m[k].Wait)
+//@   requires li_distinct: forall k1 K, k2 K :: in(k1, s.m) && in(k2, s.m) && s.m[k1].Wait != nil && k1 != k2 ==> s.m[k1].Wait != s.m[k2].Wait
+//@   ensures found [C15]: old(in(key, s.m)) ==> val == old(s.m[key].Val) && wait == old(s.m[key].Wait) && !first && s.m[key] == old(s.m[key])
+//@   ensures registered [C15]: !old(in(key, s.m)) ==> first && wait != nil && !isclosed(wait) && in(key, s.m) && s.m[key].Wait == wait
+//@   ensures never_released_early [C15]: wait != nil ==> !isclosed(wait)
+//@   ensures others [C15]: forall k K :: k != key ==> in(k, s.m) == old(in(k, s.m)) && s.m[k] == old(s.m[k])
+//@   ensures wakes_nobody [C15]: forall c chan struct{} :: isclosed(c) == old(isclosed(c))
+//@   ensures li_open [C15]: forall k K :: in(k, s.m) && s.m[k].Wait != nil ==> !isclosed(s.m[k].Wait) && allocated(s.m[k].Wait)
+//@   ensures li_distinct [C15]: forall k1 K, k2 K :: in(k1, s.m) && in(k2, s.m) && s.m[k1].Wait != nil && k1 != k2 ==> s.m[k1].Wait != s.m[k2].Wait
+//
+// ErrMap.GetOrSet: the first caller for a key must publish its result (value or error) on every path,
+// otherwise later callers wait for ever.
+//@ func (ErrMap).GetOrSet
+//@   requires m != nil
+//@   opt callbacks=pure
+//@   opt panics=allowed
+//@   returnsite first_publishes [C15]: !first || v.Err != nil || called("(Map).Set")
+//
+// The sharded map is used opaquely by ErrMap (only the call structure of GetOrSet is checked above).
+//@ assume func (Map).GetOrWait
+//@ assume func (Map).Set
+//@ assume func (Map).Get
